@@ -335,6 +335,7 @@ def run(chk, prog, tier):
     check_offsets_monotone(chk, prog)
     check_stale_count(chk, prog)
     check_stale_counted(chk, prog)
+    check_row_retired(chk, prog)
     check_merge_order(chk, prog)
     check_notify(chk, prog)
     check_clear_resets(chk, prog)
@@ -675,6 +676,60 @@ def check_merge_order(chk, prog):
     chk.judge(ok, R, f"{SWT}::merge", "removals, then insertions, then the optional rehash; the change report is built from both results",
               "Table::merge of SortedWritesTable no longer applies removals before insertions (or skips one of them / reports the wrong result): a re-canonicalised row whose key did not "
               "change is deleted right after being inserted, or a change is reported as no change", f.loc)
+
+
+def check_row_retired(chk, prog):
+    """the parallel insert writes every incoming row to shared storage first and decides afterwards: when the key already has an
+    entry, exactly one of the two physical rows survives, so the other one must be retired on every path"""
+    R = chk.rule("R-ROW-RETIRED", "in every function that stales rows through the shared handle (set_stale_shared: rows are written to storage before the key is probed) and matches on "
+                 "HashTable::entry(..): on every path through the Occupied arm a set_stale_shared call retires one of the two physical rows of the key (the previous row when the merged "
+                 "row replaces it, the freshly written row when it does not) before control re-joins the Vacant arm's continuation")
+    n = 0
+    for f in prog.lib_fns(["egglog_core_relations"]):
+        stale = {c.bb for c in f.calls if c.p.endswith("::set_stale_shared")}
+        entries = [c for c in f.calls if c.p.endswith("HashTable::entry")]
+        if not stale or not entries:
+            continue
+        for e in entries:
+            sw = None
+            for b in sorted(f.live):
+                t = f.term(b)
+                if t[0] == "switch":
+                    d = f.describe_operand(t[1])
+                    if d and d[0] == "disc" and d[1][0] == e.dest[0] and not d[1][1]:
+                        sw = b
+            if sw is None:
+                continue
+            succs = [sx for sx in f.succ[sw] if f.term(sx)[0] != "unreachable"]
+            arm = {sx: ({sx} | f.reach_avoiding([sx], {sw})) for sx in succs}
+            vins = {c.bb for c in f.calls if c.p.endswith("VacantEntry::insert")}
+            vac = [sx for sx in succs if arm[sx] & vins and not any((arm[o] & vins) >= (arm[sx] & vins) and len(arm[o]) < len(arm[sx]) for o in succs if o != sx)]
+            # the arm that reaches the insert first (the other arm reaches it only through the join / next iteration)
+            vac = [sx for sx in vac if sx in vins or any(b in vins for b in arm[sx])]
+            if len(vac) > 1:
+                vac = [sx for sx in vac if sx in vins] or vac[:1]
+            occ = [sx for sx in succs if sx not in vac]
+            if len(vac) != 1 or len(occ) != 1:
+                continue
+            n += 1
+            join = arm[vac[0]]
+            bad = False
+            seen = set()
+            stack = [occ[0]]
+            while stack:
+                x = stack.pop()
+                if x in seen or x in stale:
+                    continue
+                seen.add(x)
+                if f.term(x)[0] == "ret" or x in join:
+                    bad = True
+                    break
+                stack.extend(f.succ[x])
+            root = f.root or f.name
+            chk.judge(not bad, R, f"{root}:occupied-arm{'@closure' if f.kind == 'closure' else ''}", "one of the key's two physical rows is retired on every path of the collision arm",
+                      "a key collision in the write-first insert path can leave both physical rows of the key live (neither the previous nor the freshly written row is staled on some "
+                      "path): scans return two rows for one key and the superseded value stays visible", e.loc)
+    chk.floor(R, n, 1, "write-first insert sites with an entry match (parallel_insert)")
 
 
 def rv_ops(rv):
